@@ -30,6 +30,25 @@ asn1f_parameterization_fork(arg_t *arg, asn1p_expr_t *expr, asn1p_expr_t *rhs_ps
 	assert(expr->parent_expr == 0);
 
 	/*
+	 * "NULL" as an actual parameter is parsed as the value NULL.
+	 * A formal parameter without a governor is not a value: it is a type.
+	 */
+	target = TQ_FIRST(&rhs_pspecs->members);
+	for(npspecs = 0; target && npspecs < expr->lhs_params->params_count;
+			npspecs++, target = TQ_NEXT(target, next)) {
+		if(expr->lhs_params->params[npspecs].governor == NULL
+		&& target->meta_type == AMT_VALUE
+		&& target->value && target->value->type == ATV_NULL) {
+			asn1p_value_free(target->value);
+			target->value = NULL;
+			free(target->Identifier);
+			target->Identifier = NULL;
+			target->meta_type = AMT_TYPE;
+			target->expr_type = ASN_BASIC_NULL;
+		}
+	}
+
+	/*
 	 * Find if this exact specialization has been used already.
 	 */
 	for(npspecs = 0;
